@@ -192,3 +192,93 @@ Theorem C19_bias_plot_complete : forall f lvl ys models two_d gr weights series 
     In g (bs_main (nth i series (mkbs [] None))).
 Proof. exact bias_plot_complete. Qed.
 Print Assumptions C19_bias_plot_complete.
+
+(* ---- plot_marginal (model/PlotMarginal.v, proofs/PlotMarginalProps.v) ---- *)
+From Coq Require Import QArith List Bool.
+Import ListNotations.
+From MD Require Import lib.QLists model.Binning model.Bias model.Marginal model.PlotMarginal proofs.PlotMarginalProps.
+Open Scope Q_scope.
+
+(* EXTENSION beyond the three plots named by the property: plot_marginal draws the table compute_marginal returns for the same arguments *)
+Theorem C19_marginal_plot_structure :
+  forall (f : xrow -> Q) (ys : list Q) (models : list (list Q)) (two_d : bool) 
+         (ft : mfeat) (n_bins : nat) (weights : option (list Q)) (pd : option pdin) 
+         (sl : show_lines) (fname mname : String.string) (p : pmplot),
+       plot_marginal f ys models two_d ft n_bins weights pd sl fname mname = PMOk p ->
+       exists (t : list mrow) (pdcol : option (list (option Q))) (seen : option PartialDep.matrix),
+         compute_marginal f ByBin ys models ft n_bins weights pd = MOk [(t, pdcol)] seen /\
+         two_d = false /\
+         has_feature ft = true /\
+         sl <> SLInvalid /\
+         draw (is_str ft) match pd with
+                          | Some _ => true
+                          | None => false
+                          end t pdcol sl fname mname = PMOk p.
+Proof. exact pm_plot_structure. Qed.
+Print Assumptions C19_marginal_plot_structure.
+
+Theorem C19_marginal_lines_are_table_means :
+  forall (is_cat with_pd : bool) (t : list mrow) (pdcol : option (list (option Q))) 
+         (sl : show_lines) (fname mname : String.string) (p : pmplot) (s : series),
+       draw is_cat with_pd t pdcol sl fname mname = PMOk p ->
+       In s (pm_series p) ->
+       (s_item s = IObs -> map snd (s_main s) = map obs_cell (table_rows is_cat t)) /\
+       (s_item s = IPred -> map snd (s_main s) = map pred_cell (table_rows is_cat t)).
+Proof. exact pm_lines_are_table_means. Qed.
+Print Assumptions C19_marginal_lines_are_table_means.
+
+Theorem C19_marginal_pd_is_table_pd :
+  forall (is_cat with_pd : bool) (t : list mrow) (col : list (option Q)) (sl : show_lines)
+         (fname mname : String.string) (p : pmplot) (s : series),
+       length col = length t ->
+       draw is_cat with_pd t (Some col) sl fname mname = PMOk p ->
+       In s (pm_series p) ->
+       s_item s = IPD -> map snd (s_main s) = (if is_cat then kept (map is_null_row t) col else col).
+Proof. exact pm_pd_is_table_pd. Qed.
+Print Assumptions C19_marginal_pd_is_table_pd.
+
+Theorem C19_marginal_points_per_group :
+  forall (is_cat with_pd : bool) (t : list mrow) (pdcol : option (list (option Q))) 
+         (sl : show_lines) (fname mname : String.string) (p : pmplot) (s : series),
+       draw is_cat with_pd t pdcol sl fname mname = PMOk p ->
+       In s (pm_series p) -> length (filter has_x (s_main s)) = length (table_no_nulls t).
+Proof. exact pm_points_per_group. Qed.
+Print Assumptions C19_marginal_points_per_group.
+
+Theorem C19_marginal_bar_heights :
+  forall (is_cat with_pd : bool) (t : list mrow) (pdcol : option (list (option Q))) 
+         (sl : show_lines) (fname mname : String.string) (p : pmplot),
+       draw is_cat with_pd t pdcol sl fname mname = PMOk p ->
+       let fr := frame t pdcol in
+       map b_height (pm_bars p) = map (fun q : prow => height (total_weight fr) (row_weight q)) (no_nulls fr) /\
+       option_map b_height (pm_null_bar p) =
+       option_map (fun q : prow => height (total_weight fr) (row_weight q)) (null_row fr).
+Proof. exact pm_bar_heights. Qed.
+Print Assumptions C19_marginal_bar_heights.
+
+Theorem C19_marginal_bars_sum :
+  forall (is_cat with_pd : bool) (t : list mrow) (pdcol : option (list (option Q))) 
+         (sl : show_lines) (fname mname : String.string) (p : pmplot),
+       draw is_cat with_pd t pdcol sl fname mname = PMOk p ->
+       ~ total_weight (frame t pdcol) == 0 -> (length (filter is_null_row t) <= 1)%nat -> heights_sum p == 1.
+Proof. exact pm_bars_sum. Qed.
+Print Assumptions C19_marginal_bars_sum.
+
+Theorem C19_marginal_plot_draws_means :
+  forall (f : xrow -> Q) (ys : list Q) (models : list (list Q)) (two_d : bool) 
+         (ft : mfeat) (n_bins : nat) (weights : option (list Q)) (pd : option pdin) 
+         (sl : show_lines) (fname mname : String.string) (p : pmplot),
+       plot_marginal f ys models two_d ft n_bins weights pd sl fname mname = PMOk p ->
+       exists (t : list mrow) (pdcol : option (list (option Q))) (seen : option PartialDep.matrix),
+         compute_marginal f ByBin ys models ft n_bins weights pd = MOk [(t, pdcol)] seen /\
+         map s_item (pm_series p) = plot_items match pd with
+                                               | Some _ => true
+                                               | None => false
+                                               end /\
+         (forall s : series,
+          In s (pm_series p) ->
+          (s_item s = IObs -> map snd (s_main s) = map obs_cell (table_rows (is_str ft) t)) /\
+          (s_item s = IPred -> map snd (s_main s) = map pred_cell (table_rows (is_str ft) t)) /\
+          length (filter has_x (s_main s)) = length (table_no_nulls t)).
+Proof. exact pm_plot_draws_marginal_means. Qed.
+Print Assumptions C19_marginal_plot_draws_means.
